@@ -7,14 +7,19 @@ export CARGO_NET_OFFLINE=true
 cd $W || exit 2
 git checkout -q -- . ; git apply $O/patch.diff || { echo "patch does not apply"; exit 2; }
 mkdir -p tests; [ -f $O/demo_test.rs ] && cp $O/demo_test.rs tests/demo_test.rs
+# the build script keeps generated tables: force regeneration of the book when the patch touches its sources
+regen() { if grep -q "opening_lines.txt\|precompile/" $O/patch.diff; then rm -f target/*/build/chess-*/out/opening_book.rs target/*/*/build/chess-*/out/opening_book.rs; fi; }
+DEMOENV=""
+if grep -q "chess_verif" $O/demo_test.rs; then DEMOENV="RUSTFLAGS=--cfg=chess_verif CARGO_TARGET_DIR=target/verifcfg"; fi
+regen
 echo "== existing suite with patch"; cargo test --workspace --no-fail-fast --offline --lib --bins 2>&1 | grep -E "^test result" | head -3
 SUITE=$(cargo test --workspace --no-fail-fast --offline --lib --bins 2>&1 | grep -E "^test result: ok. 90 passed" | wc -l)
-echo "== demo with patch"; cargo test --offline --test demo_test 2>&1 | grep -E "^test result|panicked" | head -5
-WITH=$(cargo test --offline --test demo_test 2>&1 | grep -cE "^test result: FAILED")
-git apply -R $O/patch.diff
-echo "== demo without patch"; cargo test --offline --test demo_test 2>&1 | grep -E "^test result" | head -3
-WITHOUT=$(cargo test --offline --test demo_test 2>&1 | grep -cE "^test result: ok")
-git apply $O/patch.diff
+echo "== demo with patch"; env $DEMOENV cargo test --offline --test demo_test 2>&1 | grep -E "^test result|panicked" | head -5
+WITH=$(env $DEMOENV cargo test --offline --test demo_test 2>&1 | grep -cE "^test result: FAILED")
+git apply -R $O/patch.diff; regen
+echo "== demo without patch"; env $DEMOENV cargo test --offline --test demo_test 2>&1 | grep -E "^test result" | head -3
+WITHOUT=$(env $DEMOENV cargo test --offline --test demo_test 2>&1 | grep -cE "^test result: ok")
+git apply $O/patch.diff; regen
 echo "suite_ok=$SUITE demo_fails_with=$WITH demo_passes_without=$WITHOUT"
 if [ "$SUITE" = 1 ] && [ "$WITH" -ge 1 ] && [ "$WITHOUT" -ge 1 ]; then
   mkdir -p /verif/seeded/$NAME; cp $O/patch.diff $O/demo_test.rs /verif/seeded/$NAME/; cp $O/meta.json /verif/seeded/$NAME/meta.agent.json
